@@ -32,22 +32,34 @@ pub fn lib_call(
     let (ds, de, tl, rm) = (doc.ds.clone(), doc.de.clone(), doc.tl_tag.clone(), doc.rm_tag.clone());
     let offset = offset.to_string();
     let targets: HashSet<String> = targets.iter().cloned().collect();
-    crate::world::QUIET_PANICS.with(|q| q.set(true));
-    let r = std::panic::catch_unwind(move || {
-        let current = chrono::Local.timestamp_opt(now.0, now.1 as u32).single().expect("instant representable");
-        let config = ChiritoriConfiguration {
-            time_limited_configuration: TimeLimitedConfiguration { tag_name: tl, time_offset: offset, current },
-            removal_marker_configuration: RemovalMarkerConfiguration { tag_name: rm, targets },
-        };
-        let content = Rc::new(text);
-        let fmt = if json { ListFormat::JSON } else { ListFormat::PrettyString };
-        match mode {
-            Mode::Clean => clean(content, (ds, de), config),
-            Mode::List => list(content, (ds, de), config, fmt).unwrap(),
-            Mode::ListAll => list_all(content, (ds, de), config, fmt).unwrap(),
-        }
-    });
-    crate::world::QUIET_PANICS.with(|q| q.set(false));
+    // The reference runs on a fresh thread under a fixed environment (TZ, LANG, LC_* unset), so that
+    // it is a pure function of its arguments even if a change under test makes the library read the
+    // process time zone (chrono caches the zone per thread).
+    for k in ["TZ", "LANG", "LC_ALL", "LC_TIME"] {
+        std::env::remove_var(k);
+    }
+    let h = std::thread::Builder::new()
+        .name("sim-reference".into())
+        .stack_size(16 << 20)
+        .spawn(move || {
+            crate::world::QUIET_PANICS.with(|q| q.set(true));
+            std::panic::catch_unwind(move || {
+                let current = chrono::Local.timestamp_opt(now.0, now.1 as u32).single().expect("instant representable");
+                let config = ChiritoriConfiguration {
+                    time_limited_configuration: TimeLimitedConfiguration { tag_name: tl, time_offset: offset, current },
+                    removal_marker_configuration: RemovalMarkerConfiguration { tag_name: rm, targets },
+                };
+                let content = Rc::new(text);
+                let fmt = if json { ListFormat::JSON } else { ListFormat::PrettyString };
+                match mode {
+                    Mode::Clean => clean(content, (ds, de), config),
+                    Mode::List => list(content, (ds, de), config, fmt).unwrap(),
+                    Mode::ListAll => list_all(content, (ds, de), config, fmt).unwrap(),
+                }
+            })
+        })
+        .expect("spawn reference thread");
+    let r = h.join().expect("reference thread join");
     r.map_err(|_| "library panicked".to_string())
 }
 
@@ -129,7 +141,7 @@ pub struct Violation {
     pub step: usize,
 }
 
-#[derive(Clone, Debug, Default)]
+#[derive(Clone, Debug, Default, Serialize, Deserialize)]
 pub struct RunStats {
     pub execs: u64,
     pub counters: BTreeMap<String, u64>,
@@ -195,4 +207,68 @@ impl RunStats {
 
 pub fn any_soft_fault(out: &Outcome) -> bool {
     out.counters.iter().any(|(k, v)| *v > 0 && (k.starts_with("short_") || k.starts_with("eintr_")))
+}
+
+// ---------------------------------------------------------------------------
+// Library session: a long-running embedding (library user, wasm playground)
+// calling the library repeatedly on ONE thread of one process, so thread-locals
+// and statics of the code under test persist from call to call.
+// ---------------------------------------------------------------------------
+
+#[derive(Clone, Debug)]
+pub enum SessionInput {
+    Text(String),
+    /// the output of an earlier call of the same session
+    OutputOf(usize),
+}
+
+#[derive(Clone, Debug)]
+pub struct SessionCall {
+    pub input: SessionInput,
+    pub offset: String,
+    pub now: (i64, i64),
+    pub targets: BTreeSet<String>,
+}
+
+pub fn library_session(doc: &Doc, env: &BTreeMap<String, String>, calls: Vec<SessionCall>) -> Vec<Result<String, String>> {
+    use chiritori::chiritori::*;
+    for k in ["TZ", "LANG", "LC_ALL", "LC_TIME"] {
+        match env.get(k) {
+            Some(v) => std::env::set_var(k, v),
+            None => std::env::remove_var(k),
+        }
+    }
+    let (ds, de, tl, rm) = (doc.ds.clone(), doc.de.clone(), doc.tl_tag.clone(), doc.rm_tag.clone());
+    let h = std::thread::Builder::new()
+        .name("sim-session".into())
+        .stack_size(16 << 20)
+        .spawn(move || {
+            crate::world::QUIET_PANICS.with(|q| q.set(true));
+            let mut outs: Vec<Result<String, String>> = Vec::new();
+            for c in calls {
+                let text = match &c.input {
+                    SessionInput::Text(t) => Ok(t.clone()),
+                    SessionInput::OutputOf(i) => outs.get(*i).cloned().unwrap_or_else(|| Err("no such output".into())),
+                };
+                let r = match text {
+                    Err(e) => Err(e),
+                    Ok(text) => {
+                        let (ds, de, tl, rm) = (ds.clone(), de.clone(), tl.clone(), rm.clone());
+                        std::panic::catch_unwind(move || {
+                            let current = chrono::Local.timestamp_opt(c.now.0, c.now.1 as u32).single().expect("instant representable");
+                            let config = ChiritoriConfiguration {
+                                time_limited_configuration: TimeLimitedConfiguration { tag_name: tl, time_offset: c.offset.clone(), current },
+                                removal_marker_configuration: RemovalMarkerConfiguration { tag_name: rm, targets: c.targets.iter().cloned().collect::<HashSet<String>>() },
+                            };
+                            clean(Rc::new(text), (ds, de), config)
+                        })
+                        .map_err(|_| "library panicked".to_string())
+                    }
+                };
+                outs.push(r);
+            }
+            outs
+        })
+        .expect("spawn session thread");
+    h.join().expect("session thread join")
 }
